@@ -7,7 +7,7 @@ package transaction
 //@ spec func dsum(s []common.Address, k int, w types.SignerMap) mathint = ite(k <= 0, 0, dsum(s, k-1, w) + ite(has(w, s[k-1]) && !exists(j, 0, k-1, s[j] == s[k-1]), int(w[s[k-1]]), 0))
 
 //@ func (*TxProcessor).checkSignersWeight   pure
-//@   props C06
+//@   props C06 C04
 //@   requires p != nil && p.am != nil && tx != nil
 //@   let reg = p.am.GetAccount(sender).GetSigners(); sg = res0(interfaceSigner.GetSigners(tx))
 //@   ensures result == nil && len(reg) == 0 ==> len(sg) >= 1 && sg[0] == sender
@@ -15,6 +15,11 @@ package transaction
 //@   ensures result == nil && len(reg) > 0 ==> dsum(sg, len(sg), signersMap) >= 100
 //@   invariant @loop 0: 0 <= $k && $k <= len(signers) && totalWeight == dsum(signers, $k, signersMap) && 0 <= totalWeight && totalWeight <= 255 * $k
 //@   invariant @loop 0: counted != nil && forall(j, 0, $k, has(counted, signers[j])) && forallKeys(a, counted, exists(j, 0, $k, signers[j] == a))
+// C04/C06 in the property's wording: a plain account authorises "by its own key" -- one signature, its own.  The transaction id
+// (Transaction.Hash) covers the signature list while the signing hash does not, so a copy of an authorised transaction with
+// one more signature appended by anybody is a different transaction for the replay cache and still passes here (D11, an open
+// known finding: the code looks at signers[0] only).
+//@   ensures result == nil && len(reg) == 0 ==> len(sg) == 1
 
 // C06: which signing hash has to authorise whom.  With a separate gas payer: the payer signs the gas terms (GasPayerSigner) and
 // the sender signs the reimbursement form of the transaction; otherwise the payer must be the sender, who signs the default form.
